@@ -10,6 +10,7 @@ mod cacheseq;
 mod verdict;
 mod cachesched;
 mod cachefault;
+mod fetch;
 
 use std::collections::HashMap;
 
@@ -59,6 +60,7 @@ fn main() {
         "cache-fault" => cachefault::run_fault(&args),
         "crash-child" => cachefault::run_child(&args),
         "migrate" => cachefault::run_migrate(&args),
+        "fetch" => fetch::run(&args),
         other => {
             eprintln!("unknown stream {other}");
             std::process::exit(2);
